@@ -46,10 +46,28 @@ impl UvMapping {
     ///
     /// returns: Option<(usize, [f64; 3])>
     pub fn triangle(&self, point: &Point2) -> Option<(usize, [f64; 3])> {
+        // The UV triangles are solid 2D shapes: a point inside one must stay where it is instead of
+        // being projected to the triangle's nearest edge
         let result = self
             .tri_map
-            .project_local_point_and_get_location(point, false);
+            .project_local_point_and_get_location(point, true);
         let (_, (t_id, loc)) = result;
-        Some((t_id as usize, loc.barycentric_coordinates().unwrap()))
+        let bc = match loc.barycentric_coordinates() {
+            Some(bc) => bc,
+            None => {
+                // Strictly inside: the location carries no coordinates, compute them from areas
+                let tri = self.tri_map.triangle(t_id);
+                let area = |p: &Point2, q: &Point2, r: &Point2| {
+                    (q.x - p.x) * (r.y - p.y) - (q.y - p.y) * (r.x - p.x)
+                };
+                let total = area(&tri.a, &tri.b, &tri.c);
+                [
+                    area(point, &tri.b, &tri.c) / total,
+                    area(&tri.a, point, &tri.c) / total,
+                    area(&tri.a, &tri.b, point) / total,
+                ]
+            }
+        };
+        Some((t_id as usize, bc))
     }
 }
